@@ -82,6 +82,81 @@ CHECKS["C15"] = dict(
          "and the new API's missing optional hierarchy are documented ambiguities outside the model. Trusted: TLC, harness/uijson_impl.py.",
 )
 
+CHECKS["C08"] = dict(
+    engine="spec/values", category="model_checking",
+    technique="TLA+ function-style specification of the value codec over value classes (ValueCodec.tla): TLC enumerates every "
+              "request (family x data kind x operation x source dtype/form x <=2 element classes x length relation), checks "
+              "RoundTrip, UnrepresentableRejected, NaNIsFloatNDV, IntGapIsIntNDV, BooleansAreBits, KeyZeroIsUnknown, LengthRule on "
+              "the specified outcome and exports it; the harness instantiates each class with boundary and seeded random members "
+              "and replays every request through add_data / values setter / value_map / add_comment / metadata / add_file on a "
+              "real file, comparing verdict, live value, raw HDF5 datasets and the value after re-open",
+    text="Model checking of the class abstraction (exhaustive over the class table of the cfg) + replay of concrete "
+         "representatives of every class into the implementation; a wrong answer is attributed to a recorded finding only when "
+         "it equals the prediction of the named deviation.",
+    design_ref="DESIGN.md section 6 (C08); notes/C08.md",
+    note="Not a proof over IEEE-754/Unicode: behaviour is assumed uniform inside a value class; members are boundaries plus seeded "
+         "samples; arrays carry at most two classes. Requests whose verdict C08 does not decide (representable values the code "
+         "refuses) are accepted either way, with the round trip required when accepted.",
+)
+CHECKS["C13"] = dict(
+    engine="spec/select", category="model_checking",
+    technique="TLA+ specs ExtentSelect.tla / ExtentGrid.tla / ExtentBox.tla (exact integer-rational geometry) define InBox, Mask and "
+              "CopyFromExtent for Points, Curve, Surface, Drillhole, ContainerGroup, Grid2D, BlockModel, Octree, "
+              "utils.mask_by_extent and Data.mask_by_extent; TLC enumerates every (object, box) configuration of each cfg, checks the "
+              "selection invariants and named-deviation negative controls and prints the expected mask/copy per case; the harness "
+              "replays every case through mask_by_extent and one copy_from_extent per distinct selection",
+    text="Exhaustive within the bounds of the cfg files: every vertex set (<=3-4 vertices on a 3x3x2 lattice), every cell set, "
+         "every half-unit box (degenerate, face-on-point, touching, disjoint), both inverse flags, 2-D and 3-D extents; grids up to "
+         "3x3 / 2x2x2, 5 octree layouts, 13 exact rotation/dip angles. The implementation is held to the printed outcome of every "
+         "enumerated case (masks positionally / by cell-centre coordinates, copies as coordinate->value multisets).",
+    design_ref="DESIGN.md section 5 (C13); notes/C13.md",
+    note="Small-scope and exact-rational: off-lattice coordinates, irrational angles and faces closer than 1/10 unit to a rotated "
+         "centre are not decided; float data only; None-vs-empty and inverse-on-miss follow the code where the property allows both.",
+)
+CHECKS["C14"] = dict(
+    engine="spec/uijson", category="model_checking",
+    technique="TLA+ state machine UiJsonRoundTrip.tla of InputFile (Load, SetValue, Write, Read, Demote, Promote over token-valued "
+              "ui.json files of 1-3 template forms with optional/enabled/isValue/property/group/dependency/parent members) checked by "
+              "TLC for RoundTripData, RoundTripEnabled, ReadRefused, InStep, PromoteDemote; a path cover of the exported as-built "
+              "state graph is replayed through geoh5py.ui_json.InputFile on a real workspace file; data, ui_json members and the JSON "
+              "text are compared with the TLC state after every action",
+    text="Exhaustive over every form kind x 29 raw value kinds x required/enabled/disabled for single-parameter files, all "
+         "pairs/triples of a form catalogue with parent, dependency and group relations, <=2 SetValue (incl. texts that look like "
+         "None/inf/uuid/.geoh5) and <=2 writes; conformance by replay of a path cover (quick: stratified sample, thorough: all).",
+    design_ref="DESIGN.md section 6 (C14); notes/C14.md",
+    note="Values are classes with seeded representatives; validation verdicts belong to C15; NaN, in-memory workspaces and "
+         "integers beyond 64 bits excluded; the intake of the raw dictionary is not charged. Seven genuine deviations are recorded "
+         "as known findings with their own signatures.",
+)
+CHECKS["C17"] = dict(
+    engine="spec/derived", category="model_checking",
+    technique="TLA+ specs GridIndex / OctreeRefine / CurveParts (TLC exhaustive over grid shapes, delimiters, origins, rational "
+              "rotations/dips, power-of-two octree dimensions, part labelings; exact rational arithmetic) and CentroidCache (state "
+              "machine: every geometry setter x read) + spec-to-code replay of every enumerated case and of a transition cover of "
+              "the exported state graph through BlockModel/Grid2D/Octree/DrapeModel/Curve",
+    text="TLC checks the format's index formulas, exact tiling of the base grid, #centres = #cells with and without origin, "
+         "segments-join-consecutive-same-part and parts-equal-connected-components on the specified results and prints them as exact "
+         "rationals; the harness rebuilds every case with geoh5py and compares centroids (1e-9), n_cells, octree_cells, cells, parts; "
+         "all interleavings of geometry setters and reads over finite domains are replayed on real objects (cache coherence).",
+    design_ref="DESIGN.md section 5 (C17); notes/C17.md",
+    note="Small-scope bounds (<=3 cells per axis, 12 rational angles, octree dimensions <=16, curves <=7 vertices / 3 labels); "
+         "in-memory workspaces; first block delimiter 0 as the format asks. Trusted: TLC, Rat.tla arithmetic, the rational->float "
+         "conversion in C17.py.",
+)
+CHECKS["C18"] = dict(
+    engine="spec/desurvey", category="model_checking",
+    technique="TLA+ specifications over exact rationals (SurveyPath, Desurvey, DesurveyCache, DrillholeLog) model-checked by TLC; "
+              "every enumerated survey table and every history of setters, queries and add_data calls within the bounds is replayed "
+              "through Drillhole.desurvey / add_data and compared with the positions and states TLC computed (live and re-opened)",
+    text="Exhaustive within the bounds for desurvey (all tables of <=3 rows over integer depths and 5-14 rational directions, "
+         "half-integer query grid) and for setter/query histories of length 3 (4); add_data histories of 2 calls exhaustively in the "
+         "thorough tier (seeded sample in quick), 3 calls by seeded sample.",
+    design_ref="DESIGN.md section 5 (C18); notes/C18.md",
+    note="Decides C18 only for directions with rational components, integer station depths, grid query depths and a small tick set "
+         "with tolerances 0.001/0.01; arbitrary real azimuth/dip and tolerance-boundary cases are residue. 'Last direction' is read "
+         "as the last leg's.",
+)
+
 NOT_YET = "check not built yet in this round (planned: see DESIGN.md section 7)"
 
 
